@@ -274,6 +274,15 @@ def _order_cases(thorough):
                     if not thorough and fe == 'dro' and 'ND' in o:
                         continue
                     yield {'family': 'order', 'fe': fe, 'order': o}
+    # 2-entry decision rule + a further (real) random variable declared at every position, three dependency masks
+    for fe in ('ro2', 'dro2'):
+        for ext in O.linear_extensions(fe):
+            for mask in O.MASKS:
+                for k in ((0, 1) if (thorough and fe == 'ro2') else (0,)):
+                    for o in O.with_noise(fe, ext, k):
+                        if k == 1 and 'NX' in o:
+                            continue            # the unused-dvar noise is covered by the ro / dro flavours
+                        yield {'family': 'order', 'fe': fe, 'order': o, 'mask': mask}
 
 
 def _alias_cases():
@@ -321,7 +330,9 @@ def bounds(tier):
             'graph': {'universes': [list(u) for u in (GRAPH_Q + (GRAPH_T if th else []))],
                       'bound': 'fixpoint of the abstract state graph (cap %d transitions per universe, a capped '
                                'universe is reported vacuous)' % (40000 if th else 8000)},
-            'order': {'ro_declarations': 7, 'dro_declarations': 7, 'noise_events': 2 if th else 1},
+            'order': {'ro_declarations': 7, 'dro_declarations': 7, 'noise_events': 2 if th else 1,
+                      'ro2_dro2': '2-entry rule (masks full|diag|part) + a real extra rvar at every position, 8/9 '
+                                  'declarations, noise events %d' % (1 if th else 0)},
             'alias': {'expression_kinds': 5, 'ordered_pairs': 'all'}}
 
 
